@@ -53,6 +53,12 @@ Record ex_facts := mkEx {
   ex_stateless : bool            (* NewExclusionRegexList compiles the patterns of THIS call: no package-level state, no memo *)
 }.
 
+(* listing: VFS.LsFromOpenedDirectory and the free function LsWithExclusionPatterns *)
+Record ls_facts := mkLs {
+  ls_one_read : bool;            (* the whole directory is read by ONE dir.Readdirnames(-1): no chunk loop, no bound on the number of names *)
+  ls_read_error_kept : bool      (* the error of that read is returned (not overwritten by the error of Close): a partial listing is never used *)
+}.
+
 Definition expected_rm : rm_facts := mkRm true true TTested true true true true true TTested true true true NName true true true.
 Definition expected_gc : gc_facts := mkGc true true true.
 Definition expected_priv : priv_facts := mkPriv true false true false true true.
@@ -74,6 +80,7 @@ Definition rm_ok (k : rm_facts) : bool :=
 Definition gc_ok (k : gc_facts) : bool :=
   Bool.eqb (gc_link_first k) true && Bool.eqb (gc_exists_first k) true && Bool.eqb (gc_lstat_fail_closed k) true.
 Definition ex_ok (k : ex_facts) : bool := Bool.eqb (ex_stateless k) true.
+Definition ls_ok (k : ls_facts) : bool := Bool.eqb (ls_one_read k) true && Bool.eqb (ls_read_error_kept k) true.
 Definition priv_ok (k : priv_facts) : bool :=
   Bool.eqb (pv_link_guard k) true && Bool.eqb (pv_chown_recursive k) false &&
   Bool.eqb (pv_force_passes_path k) true && Bool.eqb (pv_force_resolves_links k) false && Bool.eqb (pv_path_cleaned k) true &&
